@@ -49,6 +49,7 @@ CODES = {
     # integrity (ExecI.v): 20 image does not load in the model, 21 NewVerifier, 22 Verify, 23 callback
     # reports, 24 AnySignedBy, 25 AllSignedBy; 30 image does not load, 31 NewSigner/Sign result, 32 signed bytes
     "C09": {1, 2, 3, 5, 9, 14},
+    "C18": {11},
     "C04": {20, 21, 22, 23},
     "C05": {20, 21, 22, 23},
     "C06": {20, 21, 22, 23, 30, 31, 32},
@@ -192,12 +193,32 @@ def run_family(family, args, outdir, log):
     """Run a harness family and evaluate the model on its cases. Returns (summary, mismatches, errors)."""
     shutil.rmtree(outdir, ignore_errors=True)
     os.makedirs(outdir)
+    if family == "concurrent":
+        # built with the race detector; its reports go to <outdir>/race.<pid>
+        rc, out = sh(["go", "build", "-race", "-tags", "verif", "-o", os.path.join(BIN, "drive_race"), "./cmd/drive"],
+                     cwd=HARNESS, env=dict(GOENV, CGO_ENABLED="1"), timeout=900)
+        if rc != 0:
+            return None, None, "race-detector build failed: " + out[-2000:]
+        env = dict(os.environ, GORACE="log_path=%s exitcode=0" % os.path.join(outdir, "race"))
+        rc, out = sh([os.path.join(BIN, "drive_race"), family, "-out", outdir] + args, env=env, timeout=3000)
+        if rc != 0:
+            return None, None, "harness failed: " + out[-2000:]
+        summary = json.load(open(os.path.join(outdir, "summary.json")))
+        races = sorted(f for f in os.listdir(outdir) if f.startswith("race."))
+        summary.setdefault("oracle_checks", {})["race-detector-reports"] = len(races)
+        for f in races[:5]:
+            txt = open(os.path.join(outdir, f)).read()
+            summary["oracle_findings"] = (summary.get("oracle_findings") or []) + [{
+                "property": "C18", "case": 0, "step": 0,
+                "what": "the race detector reports a data race between read-only calls on one handle",
+                "input": txt[:3000]}]
+        return summary, [], None
     rc, out = sh([os.path.join(BIN, "drive"), family, "-out", outdir] + args, timeout=3000)
     if rc != 0:
         return None, None, "harness failed: " + out[-2000:]
     summary = json.load(open(os.path.join(outdir, "summary.json")))
     procs = []
-    for f in summary["files"]:
+    for f in summary.get("files") or []:
         cmd = "ulimit -s unlimited; ulimit -v 16000000; timeout 3000 coqc -Q %s Sif %s" % (COQ, f)
         procs.append((f, subprocess.Popen(cmd, shell=True, cwd=outdir, stdout=subprocess.PIPE,
                                           stderr=subprocess.STDOUT, text=True)))
@@ -267,6 +288,16 @@ def crash_args(tier, seed, variant=""):
     return ["-seed", str(seed), "-n", "400", "-shards", "48", "-maxcap", "12", "-maxops", "24", "-bigevery", "40", "-thorough"]
 
 
+def concurrent_args(tier, seed, variant=""):
+    return ["-seed", str(seed), "-n", "10" if tier == "quick" else "150"]
+
+
+def hist_small_args(tier, seed, variant=""):
+    if tier == "quick":
+        return ["-seed", str(seed), "-n", "32", "-shards", "8", "-maxcap", "10", "-maxops", "8", "-queries", "4"]
+    return ["-seed", str(seed), "-n", "600", "-shards", "48", "-maxcap", "16", "-maxops", "20", "-queries", "6"]
+
+
 def verify_args(mode, nq, nt):
     def f(tier, seed, variant=""):
         if tier == "quick":
@@ -277,6 +308,7 @@ def verify_args(mode, nq, nt):
 
 FAMILIES = {
     "C09": [("crash", crash_args)],
+    "C18": [("concurrent", concurrent_args), ("hist", hist_small_args), ("verify", verify_args("signedby", 20, 200))],
     "C04": [("verify", verify_args("tamper", 60, 100000))],
     "C05": [("verify", verify_args("coverage", 80, 100000)), ("verify", verify_args("tamper", 30, 400))],
     "C06": [("verify", verify_args("signverify", 40, 600)), ("verify", verify_args("keys", 24, 200))],
@@ -346,7 +378,7 @@ def decide(prop, tier, seed):
                 broken.append("correspondence %s: %s" % (fam, err[-600:]))
                 obligations += 1
             else:
-                shards = len(summary["files"])
+                shards = len(summary.get("files") or []) or 1   # a family without Coq cases is one obligation
                 obligations += shards
                 rel = [m for m in mism if m[2] in relevant]
                 if rel:
